@@ -53,6 +53,8 @@ Bin(op, a, b) == [k |-> "bin", op |-> op, a |-> <<a, b>>]
 Der(e)      == [k |-> "der", a |-> <<e>>]
 Eq(l, r)    == [l |-> l, r |-> r]
 Cmp(name, type, pre, val) == [name |-> name, type |-> <<type>>, prefixes |-> pre, dims |-> <<>>, mods |-> <<>>, val |-> val]
+AliasCl(name, base) == [kind |-> "type", name |-> name, ext |-> <<[base |-> <<base>>, mods |-> <<>>]>>, nested |-> <<>>,
+                         comps |-> <<>>, eqs |-> <<>>, ieqs |-> <<>>, short |-> TRUE]
 Cl(name, comps, eqs, ieqs) == [kind |-> "model", name |-> name, ext |-> <<>>, nested |-> <<>>, comps |-> comps,
                                eqs |-> eqs, ieqs |-> ieqs, short |-> FALSE]
 Map(s, F(_)) == [i \in DOMAIN s |-> F(s[i])]
@@ -70,15 +72,18 @@ Ders  == {"none", "direct", "inexpr", "ofexpr", "nested", "initial"}
 
 (* der() only on Real; String variables only as parameters / constants (a String input / output / algebraic is outside
    what the CasADi back end supports: Model.outputs cannot even name a StringVariable) *)
-Kinds == {k \in [var : Vars, io : IOs, type : Types, der : Ders] :
+Kinds == {k \in [var : Vars, io : IOs, type : Types, der : Ders, alias : BOOLEAN] :
              /\ (k.der # "none" => k.type = "Real")
-             /\ (k.type = "String" => k.var \in {"parameter", "constant"})}
+             /\ (k.type = "String" => k.var \in {"parameter", "constant"} /\ ~k.alias)}
 CoreKinds == {k \in Kinds :
-                 \/ k.type = "Real" /\ k.der \in {"none", "direct"} /\ (k.var = "" \/ k.io = "")
-                 \/ k.type = "Real" /\ k.der = "inexpr" /\ k.var = "" /\ k.io = "output"
-                 \/ k.type = "String" /\ k.var \in {"parameter", "constant"} /\ k.io = ""
-                 \/ k.type = "Integer" /\ k.var = "parameter" /\ k.io = ""
-                 \/ k.type = "Boolean" /\ k.var = "" /\ k.io = "input"}
+                 \/ k.alias /\ k.type = "Real" /\ k.var = "" /\ k.io \in {"input", "output"} /\ k.der \in {"none", "direct"}
+                 \/ k.alias /\ k.type = "Integer" /\ k.var = "parameter" /\ k.io = "output"
+                 \/ ~k.alias /\
+                    \/ k.type = "Real" /\ k.der \in {"none", "direct"} /\ (k.var = "" \/ k.io = "")
+                    \/ k.type = "Real" /\ k.der = "inexpr" /\ k.var = "" /\ k.io = "output"
+                    \/ k.type = "String" /\ k.var \in {"parameter", "constant"} /\ k.io = ""
+                    \/ k.type = "Integer" /\ k.var = "parameter" /\ k.io = ""
+                    \/ k.type = "Boolean" /\ k.var = "" /\ k.io = "input"}
 
 Programs ==
     {[level |-> l, vs |-> <<k>>] : l \in {"top", "nested"}, k \in Kinds}
@@ -94,7 +99,13 @@ KValue(k) == IF k.var \in {"parameter", "constant"}
              THEN <<CASE k.type = "Real" -> Lit(2) [] k.type = "Integer" -> Lit(3) [] k.type = "Boolean" -> BoolE(TRUE)
                       [] k.type = "String" -> StrE("s")>>
              ELSE <<>>
-VComps == [i \in DOMAIN pv.vs |-> Cmp(VName(i), pv.vs[i].type, KPrefixes(pv.vs[i]), KValue(pv.vs[i]))]
+(* a variable of alias type is declared with  type TReal = Real;  at library level *)
+TypeName(k) == IF k.alias THEN "T" \o k.type ELSE k.type
+AliasClasses == LET ts == {pv.vs[i].type : i \in {j \in DOMAIN pv.vs : pv.vs[j].alias}} IN
+                (IF "Real" \in ts THEN <<AliasCl("TReal", "Real")>> ELSE <<>>)
+                \o (IF "Integer" \in ts THEN <<AliasCl("TInteger", "Integer")>> ELSE <<>>)
+                \o (IF "Boolean" \in ts THEN <<AliasCl("TBoolean", "Boolean")>> ELSE <<>>)
+VComps == [i \in DOMAIN pv.vs |-> Cmp(VName(i), TypeName(pv.vs[i]), KPrefixes(pv.vs[i]), KValue(pv.vs[i]))]
 NeedH == \E i \in DOMAIN pv.vs : pv.vs[i].der = "inexpr"
 HComp == IF NeedH THEN <<Cmp("h", "Real", <<>>, <<>>)>> ELSE <<>>
 
@@ -114,7 +125,8 @@ DerEqs(w) ==   \* equations written in class w ("own" = declaring class, "top")
 DerIeqs(w) ==
     FlattenSeq([i \in DOMAIN pv.vs |-> IF pv.vs[i].der = "initial" /\ Where(i) = w THEN <<Eq(Der(VRef(i, w)), Lit(0))>> ELSE <<>>])
 
-Lib == IF pv.level = "top"
+Lib == AliasClasses \o
+       IF pv.level = "top"
        THEN <<Cl("Top", VComps \o HComp, DerEqs("own"), DerIeqs("own"))>>
        ELSE <<Cl("Sub", VComps, DerEqs("own"), DerIeqs("own")),
               Cl("Top", <<Cmp("s", "Sub", <<>>, <<>>)>> \o HComp, DerEqs("top"), DerIeqs("top"))>>
@@ -184,7 +196,7 @@ Idx(w) == CASE w = "" -> 0 [] w = "discrete" -> 1 [] w = "parameter" -> 2 [] w =
             [] w = "output" -> 2 [] w = "Real" -> 0 [] w = "Integer" -> 1 [] w = "Boolean" -> 2 [] w = "String" -> 3
             [] w = "none" -> 0 [] w = "direct" -> 1 [] w = "inexpr" -> 2 [] w = "ofexpr" -> 3 [] w = "nested" -> 4
             [] w = "initial" -> 5 [] w = "top" -> 0 [] OTHER -> 1
-KHash(k) == Idx(k.var) + 4 * Idx(k.io) + 12 * Idx(k.type) + 48 * Idx(k.der)
+KHash(k) == Idx(k.var) + 4 * Idx(k.io) + 12 * Idx(k.type) + 48 * Idx(k.der) + (IF k.alias THEN 5 ELSE 0)
 Hash(v) == Idx(v.level) + 3 * KHash(v.vs[1]) + (IF Len(v.vs) > 1 THEN 7 * KHash(v.vs[2]) ELSE 0)
 
 Init == /\ shard = <<NShards, Shard>>
@@ -248,6 +260,7 @@ Classify ==
                                 tags |-> {"level-" \o pv.level, "n" \o ToString(Len(pv.vs))}
                                          \cup {"type-" \o pv.vs[i].type : i \in DOMAIN pv.vs}
                                          \cup {"der-" \o pv.vs[i].der : i \in DOMAIN pv.vs}
+                                         \cup {IF pv.vs[i].alias THEN "alias-type" ELSE "builtin-type" : i \in DOMAIN pv.vs}
                                          \cup {"cat-" \o Cat(i) : i \in DOMAIN pv.vs}
                                          \cup {IF Len(KPrefixes(pv.vs[i])) > 1 THEN "two-keyword-prefix" ELSE "plain-prefix" : i \in DOMAIN pv.vs},
                                 ctags |-> {"two-keyword-prefix" : i \in {j \in DOMAIN pv.vs : Len(KPrefixes(pv.vs[j])) > 1}},
